@@ -51,6 +51,8 @@ pub enum Op {
     /// vfs.chown(path, uid, gid): documented as recursive
     Chown(u32, u32),
     ChownB { recurse: bool, follow: bool, uid: Option<u32>, gid: Option<u32> },
+    /// several id-setting builder calls in a row; whatever the order, the request is (uid, gid)
+    ChownChain { recurse: bool, follow: bool, order: u8, uid: u32, gid: u32 },
 }
 
 impl Op {
@@ -75,6 +77,18 @@ impl Op {
                         if *files != 0 { format!(".files(0o{:o})", files) } else { String::new() },
                         sym
                     ),
+                }
+            ),
+            Op::ChownChain { recurse, follow, order, uid, gid } => format!(
+                "chown_b({:?}).recurse({}){}{}.exec()",
+                path,
+                recurse,
+                if *follow { ".follow()" } else { "" },
+                match order {
+                    0 => format!(".uid({}).gid({})", uid, gid),
+                    1 => format!(".gid({}).uid({})", gid, uid),
+                    2 => format!(".owner(9, 9).uid({}).gid({})", uid, gid),
+                    _ => format!(".owner({}, 9).gid({})", uid, gid),
                 }
             ),
             Op::Chown(u, g) => format!("chown({:?}, {}, {})", path, u, g),
@@ -119,6 +133,7 @@ impl Op {
                     ("sym", J::s(s)),
                 ])
             },
+            Op::ChownChain { recurse, follow, order, uid, gid } => J::obj([("op", J::s("chown_chain")), ("recurse", J::Bool(*recurse)), ("follow", J::Bool(*follow)), ("order", J::i(*order as u32)), ("uid", J::i(*uid)), ("gid", J::i(*gid))]),
             Op::Chown(u, g) => J::obj([("op", J::s("chown")), ("uid", J::i(*u)), ("gid", J::i(*g))]),
             Op::ChownB { recurse, follow, uid, gid } => J::obj([
                 ("op", J::s("chown_b")),
@@ -147,6 +162,7 @@ impl Op {
                 };
                 Some(Op::ChmodB { recurse: b("recurse"), follow: b("follow"), act })
             },
+            "chown_chain" => Some(Op::ChownChain { recurse: b("recurse"), follow: b("follow"), order: u("order")? as u8, uid: u("uid")?, gid: u("gid")? }),
             "chown" => Some(Op::Chown(u("uid")?, u("gid")?)),
             "chown_b" => Some(Op::ChownB { recurse: b("recurse"), follow: b("follow"), uid: u("uid"), gid: u("gid") }),
             _ => None,
@@ -159,6 +175,7 @@ impl Op {
             Op::ChmodB { recurse, follow, act } => (*recurse, *follow, Some(act.clone()), None),
             Op::Chown(u, g) => (true, false, None, Some((Some(*u), Some(*g)))),
             Op::ChownB { recurse, follow, uid, gid } => (*recurse, *follow, None, Some((*uid, *gid))),
+            Op::ChownChain { recurse, follow, uid, gid, .. } => (*recurse, *follow, None, Some((Some(*uid), Some(*gid)))),
         }
     }
     fn family(&self) -> &'static str {
@@ -171,7 +188,7 @@ impl Op {
                 Act::Readonly => "chmod-readonly",
                 Act::Secure => "chmod-secure",
             },
-            Op::Chown(..) | Op::ChownB { .. } => "chown",
+            Op::Chown(..) | Op::ChownB { .. } | Op::ChownChain { .. } => "chown",
         }
     }
 }
@@ -214,6 +231,19 @@ fn exec_op_unwatched<V: VirtualFileSystem>(fs: &V, path: &str, op: &Op) -> CallR
                 b.exec()
             },
             Op::Chown(u, g) => fs.chown(path, *u, *g),
+            Op::ChownChain { recurse, follow, order, uid, gid } => {
+                let mut b = fs.chown_b(path)?.recurse(*recurse);
+                if *follow {
+                    b = b.follow();
+                }
+                b = match order {
+                    0 => b.uid(*uid).gid(*gid),
+                    1 => b.gid(*gid).uid(*uid),
+                    2 => b.owner(9, 9).uid(*uid).gid(*gid),
+                    _ => b.owner(*uid, 9).gid(*gid),
+                };
+                b.exec()
+            },
             Op::ChownB { recurse, follow, uid, gid } => {
                 let mut b = fs.chown_b(path)?.recurse(*recurse);
                 if *follow {
@@ -1160,6 +1190,9 @@ fn chmod_ops() -> Vec<Op> {
 
 fn chown_ops() -> Vec<Op> {
     let mut v = vec![Op::Chown(5, 7)];
+    for order in 0..4u8 {
+        v.push(Op::ChownChain { recurse: order % 2 == 0, follow: false, order, uid: 5, gid: 7 });
+    }
     for recurse in [true, false] {
         for follow in [false, true] {
             for (uid, gid) in [(Some(5), None), (None, Some(7)), (Some(5), Some(7))] {
